@@ -16,7 +16,7 @@ use std::sync::{Arc, Mutex};
 use std::task::{Context, Poll, Waker};
 
 use future_deque::{FutureDeque, LocalFutureDeque};
-use p_events_once::{Ledger, waker};
+use p_events_once::{Ledger, set_stateless_ledger, waker, waker_stateless};
 use proptest::prelude::*;
 use serde::{Deserialize, Serialize};
 use vcommon::{Ctx, Failure, Harness, Verdict, pick_index};
@@ -211,6 +211,10 @@ enum HOp {
 #[derive(Debug, Clone, Serialize, Deserialize)]
 struct HCase {
     local: bool,
+    /// parent wakers share one (null) data pointer - the same as `Waker::noop()` - and differ only
+    /// by vtable, like the wakers of minimal executors; otherwise every waker has its own data
+    #[serde(default)]
+    stateless_parents: bool,
     ops: Vec<HOp>,
 }
 
@@ -227,7 +231,7 @@ fn hcase_strategy(max: usize) -> impl Strategy<Value = HCase> {
         5 => (any::<u16>(), 0u8..4, prop::bool::weighted(0.15)).prop_map(|(f, how, foreign)| HOp::Wake { f, how, foreign }),
         1 => Just(HOp::Len),
     ];
-    (any::<bool>(), prop::collection::vec(op, 0..max)).prop_map(|(local, ops)| HCase { local, ops })
+    (any::<bool>(), prop::bool::weighted(0.4), prop::collection::vec(op, 0..max)).prop_map(|(local, stateless_parents, ops)| HCase { local, stateless_parents, ops })
 }
 
 #[derive(Clone, Copy, PartialEq, Eq, Debug)]
@@ -248,6 +252,7 @@ fn run_history<D: Deque>(case: &HCase, ctx: &mut Ctx) -> Verdict {
     let fl = |k: &str, msg: String| Failure::new(format!("C15/{kind}/{k}"), msg);
     let world = Arc::new(World::default());
     let ledger = Arc::new(Ledger::default());
+    set_stateless_ledger(Some(Arc::clone(&ledger)));
     let mut dq = D::new();
     let mut model: VecDeque<MEntry> = VecDeque::new();
     let mut popped: Vec<Out> = Vec::new();
@@ -278,7 +283,7 @@ fn run_history<D: Deque>(case: &HCase, ctx: &mut Ctx) -> Verdict {
                     stats.3 = true;
                 }
                 cur_parent = Some(parent);
-                let wk = waker(usize::from(parent), &ledger, false, None);
+                let wk = if case.stateless_parents { waker_stateless(usize::from(parent)) } else { waker(usize::from(parent), &ledger, false, None) };
                 let cx = Context::from_waker(&wk);
                 world.poll_log.lock().unwrap().clear();
                 // expectation: exactly the activated pending entries are polled, front to back
@@ -414,6 +419,9 @@ fn run_history<D: Deque>(case: &HCase, ctx: &mut Ctx) -> Verdict {
     }
     ledger.free_wakers();
     ctx.classify(kind);
+    if case.stateless_parents {
+        ctx.classify("parent-wakers:stateless(same-null-data-pointer,different-vtables)");
+    }
     if stats.0 > 0 {
         ctx.classify("foreign-thread-wake");
     }
